@@ -2,6 +2,7 @@ import Ruint.Model.Div
 import Ruint.Lemmas.Div.Dispatch
 import Ruint.Lemmas.Div.NArr
 import Ruint.Lemmas.Div.GenTie
+import Ruint.Lemmas.Div.LimbBridge
 /-!
 # C14 — limb-slice division kernels meet their documented contracts
 
@@ -203,6 +204,17 @@ theorem gen_div_3x2_spec (u21 u0 d : ℕ) (h1 : 2 ^ 127 ≤ d) (h2 : d < 2 ^ 128
     Ruint.Gen.div_3x2_mg10 u21 u0 d (Ruint.Gen.reciprocal_2_mg10 d)
       = ((u21 * 2 ^ 64 + u0) / d, (u21 * 2 ^ 64 + u0) % d) := by
   rw [gen_div_3x2_eq_model u21 u0 d h1 h2 hu hu0]; exact div_3x2_spec u21 u0 d h1 h2 hu hu0
+
+/-! ## the limb chains inside the Knuth model are the C15 models -/
+
+/-- `submul_nx1` and `adc_n` as used by the `div_nxm` / `div_nxm_normalized` models (value-level forms) equal the
+    C15 models `Ruint.Limb.submulNx1` (with the `u128`-wrapping `sbb`) and `Ruint.Limb.adcN`, which C15 checks
+    limb for limb against `ruint::algorithms::{submul_nx1, adc_n}`. -/
+theorem chain_kernels_are_c15_models (ls as : List ℕ) (b : ℕ) (hl : AllLt ls) :
+    Ruint.Limb.submulNx1 W ls as b = Ruint.Div.submulNx1 W ls as b 0 0
+    ∧ (∀ bs : List ℕ, ls.length = bs.length → Ruint.Limb.adcN W ls bs 0 = some (Ruint.Div.adcN W ls bs 0)) :=
+  ⟨Bridge.submulNx1_eq_limb W W_two ls as b 0 0 hl Ruint.W_pos,
+   fun bs h => Bridge.adcN_eq_limb W ls bs 0 h⟩
 
 /-! ## non-vacuity: concrete inputs meeting each hypothesis set, evaluated through the model -/
 
